@@ -1191,7 +1191,8 @@ fn check_queries(seed: u64) -> i32 {
     let mut r = Rng(seed ^ 0x9e11e5);
     for _ in 0..240 {
         let (ab, da) = mk_ab_nested(&mut r, 2);
-        let (cm, dc) = mk_cm(&mut r);
+        // (here also multiframe models with zero-cost frames: a frame that costs nothing is still a job)
+        let (cm, dc): (Box<dyn JobCostModel>, String) = if r.below(4) == 0 { let v: Vec<u64> = (0..2 + r.below(3)).map(|_| r.below(4)).collect(); (Box::new(wcet::Multiframe::new(v.iter().map(|x| s(*x)).collect())), format!("Multiframe{:?}", v)) } else { mk_cm(&mut r) };
         let desc = format!("{{\"arrival\": \"{}\", \"cost\": \"{}\"}}", da, dc);
         let res = guarded(|| -> Result<(), String> {
             if ab.number_arrivals(d(0)) != 0 { return Err("number_arrivals(0) != 0".into()); }
